@@ -92,6 +92,32 @@ def request_lambda(L, host, t):
     return f
 
 
+def request_local_method(L, host, t):
+    """target = method `name` of the class `record` declared locally inside function `host`"""
+    recs = []
+    find_all(host, 'CXXRecordDecl', recs)
+    recs = [r for r in recs if r.get('name') == t['record'] and r.get('completeDefinition')]
+    if len(recs) != 1:
+        raise InfraError('contract no longer attached: local class %s found %d times in %s' % (t['record'], len(recs), t['local_method_in']))
+    rec = recs[0]
+    ms = [c for c in rec.get('inner', []) if c.get('name') == t['name'] and Index.has_body(c)]
+    if len(ms) != 1:
+        raise InfraError('contract no longer attached: method %s of local class %s found %d times' % (t['name'], t['record'], len(ms)))
+    cname = t['cname']
+    f = L.request_fn(ms[0], cname, kind='lambda')
+    f.closure_ty = cname + '_obj'
+    lines = []
+    for c in rec.get('inner', []):
+        if c.get('kind') == 'FieldDecl':
+            ft = L.ty(c['type'])
+            lines.append('  %s;' % L.cdecl(Ty('ptr', to=ft.to) if ft.kind == 'ref' else ft, c['name']))
+    L.rec_defs[f.closure_ty] = 'struct %s {\n%s\n};' % (f.closure_ty, '\n'.join(lines) or '  char _empty;')
+    L.rec_order.append(f.closure_ty)
+    L.rec_fields[f.closure_ty] = []
+    L.note('local class %s::%s in %s lowered to %s(struct %s*)' % (t['record'], t['name'], t['local_method_in'], cname, f.closure_ty))
+    return f
+
+
 def request_region(L, host, t):
     raise Unsupported('region targets not implemented yet')
 
